@@ -188,6 +188,9 @@ func addOne(h common.Hash, d int64) common.Hash {
 // hashes that have this position.
 func hashAt(keys []common.Hash, pos int, sel int) common.Hash {
 	n := len(keys)
+	if pos > 2*n+1 {
+		pos = 2*n + 1 // beyond every key
+	}
 	switch {
 	case pos <= 0:
 		return common.Hash{}
